@@ -4,6 +4,7 @@ The agent gets only the property text and a scratch worktree; nothing from /veri
 import json, sys
 pid, wt = sys.argv[1], sys.argv[2]
 n = sys.argv[3] if len(sys.argv) > 3 else "2"
+variant = sys.argv[4] if len(sys.argv) > 4 else ""
 p = [json.loads(l) for l in open('/verif/properties.jsonl') if json.loads(l)['id'] == pid][0]
 print(f"""You are helping to evaluate a verification effort for the open-source project al-fontes-jr/bardolph
 (a small scripting language for LIFX lights: lexer, recursive-descent parser, bytecode code generator,
@@ -31,6 +32,8 @@ sequence of operations, a particular interleaving or fault point, two cooperatin
 alone) rather than ones ordinary use would expose at once. Each change should be small (a few lines).
 Note: the unchanged tree may ALREADY violate this property in some ways; your change must introduce a NEW,
 different violation: your demonstration must PASS on the unchanged tree and FAIL with your change.
+
+{"DIVERSITY: others have already tried the most obvious one-line changes in the most central function of this property. Look further afield: helper functions and accessors the central code relies on, error and fallback paths, rarely used statement forms, state that survives between calls (caches, counters, flags, shared mutable defaults), two cooperating sites that each look fine alone, conversions applied on one path but not on its sibling, behaviour at boundaries (empty, zero, last element, equal names, negative values). Each of your changes should touch a DIFFERENT function." if variant == "diverse" else ""}
 
 For each change k = 1..{n} create a directory {wt}/SEED/k/ containing:
   - patch.diff : output of `git diff` for that change alone, relative to the unchanged tree (so that
